@@ -295,6 +295,7 @@ func checkMain(args []string) int {
 	validated := 0
 	var outcomes []replayOutcome
 	if len(cases) > 0 {
+		os.MkdirAll("/verif/.work", 0o755)
 		wd, _ := os.MkdirTemp("/verif/.work", "rp")
 		outcomes = replayBatch(cases, wd)
 		os.RemoveAll(wd)
@@ -306,7 +307,7 @@ func checkMain(args []string) int {
 			if oc.Reproduced {
 				validated++
 			} else if oc.End == "ASSUME-FAILED" || oc.End == "" {
-				r.v.incon = append(r.v.incon, fmt.Sprintf("witness %q could not be replayed natively (%s)", r.o.ID, oc.End))
+				r.v.incon = append(r.v.incon, fmt.Sprintf("witness %q could not be replayed natively (%s) %s", r.o.ID, oc.End, rawHead(oc.Raw)))
 			} else {
 				r.v.incon = append(r.v.incon, fmt.Sprintf("ENGINE-DIVERGENCE: witness %q sat in the encoding but the native run ended %s without covering it", r.o.ID, oc.End))
 			}
@@ -682,4 +683,20 @@ func expandSpecs(in []HarnessSpec, tier string) []HarnessSpec {
 		}
 	}
 	return out
+}
+
+// rawHead: the first lines of a native replay's output that explain a build or start-up failure
+func rawHead(raw string) string {
+	var keep []string
+	for _, l := range strings.Split(raw, "\n") {
+		l = strings.TrimSpace(l)
+		if l == "" || strings.HasPrefix(l, "VREPLAY-CASE") || strings.HasPrefix(l, "=== RUN") {
+			continue
+		}
+		keep = append(keep, l)
+		if len(keep) >= 4 {
+			break
+		}
+	}
+	return strings.Join(keep, " | ")
 }
